@@ -5,6 +5,9 @@ import (
 	"fmt"
 	"strings"
 	"time"
+
+	"github.com/koykov/dyntpl"
+	"github.com/koykov/inspector"
 )
 
 // runSessions executes render cases on the real engine and on the Lean interpreter model (on the
@@ -244,6 +247,37 @@ func init() {
 			}
 		}
 		runSessions(r, cases, outputDiffers)
+		// depths written with two digits or a leading zero (a relation on the real engine alone — what the depth
+		// means is decided by the parser): in a three-level nest every depth >= 3 ends all three loops, and 02 is 2
+		for _, ka := range "cr" {
+			for _, kb := range "cr" {
+				for _, pair := range [][2]string{{"{% break 10 if c == 1 %}", "{% break 3 if c == 1 %}"}, {"{% lazybreak 12 if c == 0 %}", "{% lazybreak 3 if c == 0 %}"}, {"{% break 10 %}", "{% break 3 %}"},
+					{"{% lazybreak 25 %}", "{% lazybreak 3 %}"}, {"{% break 02 if c == 1 %}", "{% break 2 if c == 1 %}"}, {"{% lazybreak 02 %}", "{% lazybreak 2 %}"}, {"{% break 11 if c == 2 %}", "{% break 4 if c == 2 %}"}} {
+					mk := func(instr string) string {
+						return open_(byte(ka), "a") + "[a{%= a %}" + open_(byte(kb), "b") + "(b{%= b %}" + open_('c', "c") + "c{%= c %}" + instr + ".{% endfor %}x)" + "{% endfor %}]" + "{% endfor %}!"
+					}
+					var outs [2]rendered
+					bad := ""
+					for k := 0; k < 2; k++ {
+						key, err, pan := regTpl(mk(pair[k]), true)
+						if err != nil || pan != "" {
+							bad = fmt.Sprintf("Parse rejects %s: %v %s", pair[k], err, pan)
+							break
+						}
+						ctx := dyntpl.NewCtx()
+						ctx.Set("lst", &[]string{"p", "q", "r"}, inspector.StringsInspector{})
+						outs[k] = renderSafe(key, ctx)
+					}
+					sig := "depth-spelling " + pair[0] + " nest=" + string(ka) + string(kb) + "c"
+					r.Count(sig, true)
+					r.Dist["depth-spelling"]++
+					if bad != "" || outs[0].ErrStr() != outs[1].ErrStr() || !bytes.Equal(outs[0].Out, outs[1].Out) {
+						r.Violate(sig, "a loop-control depth written with two digits / a leading zero does not end the loops the same depth written plainly ends",
+							map[string]any{"source": mk(pair[0]), "plain_source": mk(pair[1]), "output": string(outs[0].Out), "plain_output": string(outs[1].Out), "error": outs[0].ErrStr(), "plain_error": outs[1].ErrStr(), "problem": bad})
+					}
+				}
+			}
+		}
 	}
 	props["C16"] = func(r *Run) {
 		r.Rule = "random templates with include (both spellings, name lists with missing entries, nested one level, inside loops/conditions/regions) and exit at arbitrary positions; Go output vs Lean interpreter model"
@@ -271,5 +305,57 @@ func init() {
 			}
 		}
 		runSessions(r, cases, outputDiffers)
+		// the registry changes between two renders of the SAME host tree (a relation on the real engine alone):
+		// an include tag renders what is registered NOW under the first registered name of its list — the output
+		// must be that of the host with the current template's source in place of the tag
+		hostsR := []string{"a<{% include c16first c16sub %}>z", "a{% for i := 0; i < 2; i++ %}<{% . c16first c16sub %}>{% endfor %}z", "{% if si == 1 %}<{% include c16sub %}>{% endif %}z"}
+		bodies := []string{"v1:{%= si %}", "v2:{%= si %}{% for j := 0; j < 2; j++ %}{%= j %}{% endfor %}!", "v3"}
+		for hi, host := range hostsR {
+			dyntpl.VerifResetRegistry()
+			hk, err, pan := regTpl(host, true)
+			if err != nil || pan != "" {
+				r.Internal("C16 re-registration: host does not parse: " + host)
+				continue
+			}
+			// steps: which name gets which body
+			steps := [][2]string{{"c16sub", bodies[0]}, {"c16sub", bodies[1]}, {"c16first", bodies[2]}, {"c16sub", bodies[0]}, {"c16first", bodies[1]}}
+			cur := map[string]string{}
+			var hist []string
+			for si, st := range steps {
+				tree, err, pan := parseSafe([]byte(st[1]), true)
+				if err != nil || pan != "" {
+					r.Internal("C16 re-registration: body does not parse")
+					break
+				}
+				dyntpl.RegisterTplKey(st[0], tree)
+				cur[st[0]] = st[1]
+				hist = append(hist, fmt.Sprintf("RegisterTplKey(%q, %q)", st[0], st[1]))
+				now, ok := cur["c16first"]
+				if !ok || !strings.Contains(host, "c16first") {
+					now = cur["c16sub"]
+				}
+				inl := host
+				for _, tag := range []string{"{% include c16first c16sub %}", "{% . c16first c16sub %}", "{% include c16sub %}"} {
+					inl = strings.ReplaceAll(inl, tag, now)
+				}
+				ik, err, pan := regTpl(inl, true)
+				if err != nil || pan != "" {
+					r.Internal("C16 re-registration: inlined host does not parse: " + inl)
+					break
+				}
+				mkCtx := func() *dyntpl.Ctx { c := dyntpl.NewCtx(); c.SetStatic("si", 1); return c }
+				got, want := renderSafe(hk, mkCtx()), renderSafe(ik, mkCtx())
+				hist = append(hist, fmt.Sprintf("render host -> %q %s", got.Out, got.ErrStr()))
+				sig := fmt.Sprintf("re-registration host=%d step=%d", hi, si)
+				r.Count(sig, true)
+				r.Dist["re-registration"]++
+				if got.Panic != "" || got.ErrStr() != want.ErrStr() || !bytes.Equal(got.Out, want.Out) {
+					r.Violate(sig+" got="+string(got.Out), "after a (re-)registration an include tag does not render the template now registered under its first registered name",
+						map[string]any{"host": host, "history": hist, "inlined": inl, "output": string(got.Out), "inlined_output": string(want.Out), "error": got.ErrStr(), "panic": got.Panic})
+					break
+				}
+			}
+		}
+		dyntpl.VerifResetRegistry()
 	}
 }
